@@ -349,7 +349,10 @@ def read_headers(sock: socket.socket) -> tuple:
 
     while True:
         line = recv_line(sock)
-        line = line.decode("utf-8").strip()
+        try:
+            line = line.decode("utf-8").strip()
+        except UnicodeDecodeError:
+            raise WebSocketException("Invalid header: not valid UTF-8")
         if not line:
             break
         trace(line)
